@@ -560,7 +560,13 @@ pub fn run(ctx: &Ctx, rep: &Report) -> Meta {
     }
 }
 
-pub fn replay(_ctx: &Ctx, rep: &Report, ck: &str, case: &Value) -> CheckResult {
+pub fn replay(ctx: &Ctx, rep: &Report, ck: &str, case: &Value) -> CheckResult {
+    // contention checks are replayed as a whole (the schedule is part of the case)
+    if ck == "concurrent-verifiers" {
+        let before = rep.violation_count();
+        concurrent_verifiers::<Bls12381Sha256>(ctx, rep, SuiteId::Sha256); concurrent_verifiers::<Bls12381Shake256>(ctx, rep, SuiteId::Shake256);
+        return if rep.violation_count() > before { Err(Fail { check: ck.into(), site: "reproduced-under-contention".into(), msg: "the contention check fails again".into(), case: case.clone() }) } else { Ok(()) };
+    }
     let c: Case = serde_json::from_value(case["case"].clone()).map_err(|e| Fail {
         check: ck.into(),
         site: "replay-parse".into(),
